@@ -20,6 +20,7 @@ def jobs(pid, tier, seed):
     out += [{"kind": "dirdup", "i": i} for i in range(16)]
     out += [{"kind": "dirdup2", "i": i} for i in range(8)]
     out += [{"kind": "dirdup3", "i": i} for i in range(4)]
+    out += [{"kind": "dirdup4", "i": i} for i in range(4)]
     n = 700 if tier == "quick" else 15000
     out += [{"kind": "dup", "seed": seed * 1000003 + i, "max": 4 if tier == "quick" else 12} for i in range(n)]
     return out
@@ -300,8 +301,48 @@ def dir_hist3(i):
     return b.h
 
 
+def dir_hist4(i):
+    """The same client-chosen mailbox id lives twice: the first incarnation is ended by a last close (re-sent: the
+    mailbox is already gone), later both sides use the id again, one of them loses its connection and closes from a new
+    one without opening (whatever the server remembered about the first incarnation's closes must not leak into the second)."""
+    from ..scenarios import HB, claimed
+    b = HB()
+    A = b.conn("app", "s1")
+    b.send(A, type="open", mailbox="mQ")
+    b.add(A, "first")
+    if i & 1:
+        B0 = b.conn("app", "s2")
+        b.send(B0, type="open", mailbox="mQ")
+        b.send(B0, type="close", mood="happy")
+    b.send(A, type="close", mood="happy")           # last close: deleted
+    b.adv(50)
+    A2 = b.conn("app", "s1")
+    b.send(A2, type="open", mailbox="mQ")
+    B = b.conn("app", "s2")
+    b.send(B, type="open", mailbox="mQ")
+    b.add(A2, "second")
+    b.drop(A2)
+    b.adv(5)
+    A3 = b.conn("app", "s1")
+    b.send(A3, type="close", mailbox="mQ", mood="happy")     # close without open on the reconnected connection
+    b.add(B, "third")
+    b.send(B, type="close", mood="happy")
+    D = b.conn("app", "s3")
+    b.send(D, type="open", mailbox="mQ")
+    b.send(D, type="list")
+    if i & 2:
+        b.adv(700)
+    E = b.conn("app", "s1")
+    b.send(E, type="open", mailbox="mQ")
+    return b.h
+
+
 def run_job(pid, job, acc):
     import random
+    if job["kind"] == "dirdup4":
+        h = dir_hist4(job["i"])
+        check_history(acc, h, Config(usage=bool(job["i"] & 2)), job["i"], "dirdup4:%d" % job["i"], 50, random.Random(0), both=True)
+        return
     if job["kind"] == "dirdup3":
         h = dir_hist3(job["i"])
         check_history(acc, h, Config(usage=bool(job["i"] & 2)), job["i"], "dirdup3:%d" % job["i"], 50, random.Random(0), both=True)
